@@ -493,6 +493,27 @@ def h_antiwindup_disabled(I):
             ('... and touches neither the state nor its derivative', AND(EQ(x.v[0], v0[0], tol=0.0), EQ(x.e[0], e0[0], tol=0.0), len(L.x_set) == 0))]
 
 
+def h_switcher_after_set(I):
+    """real Model.set on the parameter a Switcher reads, then the real check_var: the flags describe the NEW value"""
+    from collections import OrderedDict
+    from andes.core import discrete as D
+    import andes.core.model.model as MM
+    NS_ = __import__('types').SimpleNamespace
+    par_ = NS_(name='MODE', v=np.array([1.0]))
+    sw = D.Switcher(u=par_, options=(0, 1, 2, 3))
+    sw.list2array(1)                                       # evaluated (and cached) at set-up, as in System.setup
+    new = I.real('new_mode')
+    I.assume(OR(*[EQ(new, k, tol=0.0) for k in (0, 1, 2, 3)]))
+    if I.symbolic:
+        par_.v = pysym.oarr([pysym.SR(z3.RealVal(1))])
+    fake = NS_(idx2uid=lambda idx: 0, MODE=par_, states=OrderedDict(), discrete=OrderedDict(SW=sw), system=NS_(dae=NS_(Tf=np.zeros(1))))
+    MM.Model.set(fake, 'MODE', 'dev', 'v', new)
+    sw.check_var()                                         # what l_update_var calls in every iteration
+    flags = [sw.s0, sw.s1, sw.s2, sw.s3]
+    return [(f'after the parameter was set, flag s{k} is 1 exactly if the new value is option {k}',
+             IFF(EQ(np.ravel(flags[k])[0], 1, tol=0.0), EQ(new, k, tol=0.0))) for k in range(4)]
+
+
 def h_antiwindup_registry(I):
     """real System.store_adder_setter on two models that each own an anti-windup limiter of the SAME name (names are unique only
     within a model): the list the integrator uses to peg states holds every limiter of every model with devices, once"""
@@ -522,6 +543,8 @@ def region_of(values, cname):
 
 def job(spec):
     name, kind, args = spec
+    if kind == 'swset':
+        return H.run(name, h_switcher_after_set, region=lambda v, c: 'flags follow the parameter after Model.set')
     if kind == 'awoff':
         return H.run(name, h_antiwindup_disabled, region=lambda v, c: c)
     if kind == 'awreg':
@@ -573,6 +596,7 @@ def specs(thorough):
     S.append((f'Sampling.check_var(calls={kk + 1})', 'sampling', (kk + 1,)))
     S.append(('System.store_adder_setter anti-windup registry', 'awreg', ()))
     S.append(('AntiWindup(enable=False).check_eq', 'awoff', ()))
+    S.append(('Switcher after Model.set', 'swset', ()))
     return S
 
 
